@@ -18,8 +18,8 @@ import collections, random, sys, os
 sys.path.insert(0, os.path.dirname(os.path.dirname(os.path.abspath(__file__))))
 from genlib import *
 
-LEAN_MODULES = []
-THEOREMS = []
+LEAN_MODULES = ["MpirProofs.Props.C02_sbq"]
+THEOREMS = ["Mpir.SbDivQ.sb_divappr_q_contract", "Mpir.SbDivQ.sb_divappr_q_ok", "Mpir.SbDivQ.daFinal_dead"]
 PINS = [("mpn/generic/sb_divappr_q.c", None), ("mpn/generic/sb_div_q.c", None), ("gmp-impl.h", "udiv_qr_3by2"),
         ("gmp-impl.h", "mpir_invert_pi1"), ("mpn/x86_64/longlong_inc.h", "sub_333")]
 TRUSTED = ["hand-written limb-level models of mpn_sb_divappr_q / mpn_sb_div_q in lean/Mpir/Model/SbDivQ.lean (window form of the pointer walk; compared verbatim with the real functions on every run)"]
